@@ -135,16 +135,17 @@ def _hist_nontrivial(cmd, args, impl):
 
 def check_c07(c):
     generic(
-        c, "c07", ["Properties/C07.v"], ["Proofs/CompactProofs.v", "Proofs/MergeProofs.v"],
+        c, "c07", ["Properties/C07.v"], ["Proofs/CompactProofs.v", "Proofs/MergeProofs.v", "Proofs/StackSeqProofs.v"],
         what_tie="Stack.Add / compactRange / CompactAll / AutoCompact vs Model/StackSeq.v (model writer + model reader + Compact.compact_range + Segments.suggest)",
         rule=HIST_RULE, nontrivial=_hist_nontrivial,
-        assumptions=["theorems are at the level of decoded tables; writing the merged records and reading them back is the business of C01/C14 (tie: byte-exact model writer inside StackSeq)",
+        assumptions=["C07_view/seq/tombstones are at the level of decoded tables; C07_bytes_compact / C07_bytes_history / C07_bytes_add are about Model/StackSeq.v itself (merge, write the bytes, read them back), the functions this tie runs against the real Stack",
+                     "hist_ok: transaction records in the writer's documented domain (sorted, non-empty names, hash lengths, update index = the stack's next index for refs) and every written file below 2^64 bytes; zlib by the three hypotheses of C01",
                      "single handle, no interference (interleavings: C04)"])
 
 
 def check_c13(c):
     generic(
-        c, "c13", ["Properties/C13.v"], ["Proofs/CompactProofs.v", "Proofs/ExpiryProofs.v"],
+        c, "c13", ["Properties/C13.v"], ["Proofs/CompactProofs.v", "Proofs/ExpiryProofs.v", "Proofs/StackSeqProofs.v"],
         what_tie="CompactAll(expiry) vs Model/StackSeq.stack_compact_all / Compact.keep_log",
         rule=HIST_RULE + "; every history ends with an expiry; limits unset / below / inside / above the data",
         nontrivial=lambda cmd, args, impl: "CE:" in args,
